@@ -15,7 +15,13 @@
           | R/port/hm                     a complete rewrite_etc_hosts
           | S/port/hm                     restore_etc_hosts(hm, port)
    NEW port hm oldhex          -> new content hex (new_content on univ_nl old)
-   MK  port                    -> marker hex *)
+   MK  port                    -> marker hex
+   U8  hex                     -> 1 | 0   (utf8_ok: does the text-mode read decode these bytes?)
+   RWD port hm FS              -> pc | trace | fs         (rewrite_dec: rewrite_etc_hosts on a hosts file of arbitrary bytes)
+   RSD port hm FS              -> raised(0/1) | trace | fs (restore_dec)
+   HM  upd                     -> the helper's map after the HOST updates upd (hm syntax, arrival order): entries in
+                                  dict order "namehex:iphex,..." ("." = empty) | for every updated name, in order of first
+                                  appearance, "namehex:iphex" with the address of its LAST update (last_addr) *)
 let pc_str = function
   | AtRead -> "read" | AtStat -> "stat" | AtExists -> "exists" | AtLink -> "link" | AtCopy -> "copy"
   | AtOpen -> "open" | AtWrite l -> Printf.sprintf "write%d" (List.length l)
@@ -96,6 +102,22 @@ let handle = function
       Printf.sprintf "%s | %s" (String.concat ";" (List.rev outs)) (fs_str s)
   | ["NEW"; port; hm; old] ->
       hex_of_bytes (new_content (n_of_int (int_of_string port)) (univ_nl (bytes_of_hex old)) (parse_hm hm))
+  | ["U8"; d] -> b01 (utf8_ok (bytes_of_hex d))
+  | "RWD" :: port :: hm :: fs ->
+      let ((i, s), tr) = rewrite_dec (n_of_int (int_of_string port)) (parse_hm hm) (parse_fs fs) in
+      Printf.sprintf "%s | %s | %s" (pc_str i.i_pc) (trace_str tr) (fs_str s)
+  | "RSD" :: port :: hm :: fs ->
+      let ((s, tr), raised) = restore_dec (n_of_int (int_of_string port)) (parse_hm hm) (parse_fs fs) in
+      Printf.sprintf "%s | %s | %s" (b01 raised) (trace_str tr) (fs_str s)
+  | ["HM"; upd] ->
+      let u = parse_hm upd in
+      let ent (n, i) = hex_of_bytes n ^ ":" ^ hex_of_bytes i in
+      let show l = if l = [] then "." else String.concat "," (List.map ent l) in
+      let rec firsts seen = function
+        | [] -> []
+        | (n, _) :: r -> if List.mem n seen then firsts seen r else n :: firsts (n :: seen) r in
+      let la = List.map (fun n -> match last_addr n u with Some i -> (n, i) | None -> (n, [])) (firsts [] u) in
+      Printf.sprintf "%s | %s" (show (hm_after u)) (show la)
   | ["MK"; port] -> hex_of_bytes (marker (n_of_int (int_of_string port)))
   | _ -> "ERROR bad command"
 let () = main_loop handle
